@@ -324,6 +324,26 @@ let () =
         | _ -> print_endline "BADLINE"
       end
     done with End_of_file -> ())
+  | [| _; "c09-rules" |] ->
+    let show_rule r = match r with
+      | G.Fixed k -> "Fixed " ^ str k | G.Borrow a -> "Borrow " ^ str a | G.FirstOperand -> "FirstOperand -"
+      | G.Stored -> "Stored -" | G.DeclType -> "DeclType -" | G.Members -> "Members -" | G.NoRule w -> "NoRule " ^ str w in
+    List.iter (fun (c, r) -> Printf.printf "%s %s | %s\n" (str c) (show_rule r) (show_rule (G.c09_source_rule c))) G.c09_prescribed
+  | [| _; "c09-growth" |] ->
+    (* stdin: kind t0 t1 ...   stdout: the member types after 0, 1, ... additions, as the model computes them *)
+    let rec nat_of_int n = if n <= 0 then G.O else G.S (nat_of_int (n - 1)) in
+    let rec int_of_nat = function G.O -> 0 | G.S m -> 1 + int_of_nat m in
+    (try while true do
+      let line = input_line stdin in
+      match List.filter (fun w -> w <> "") (String.split_on_char ' ' line) with
+      | kind :: ts ->
+        let r = G.c09_growth (coq_string kind) (List.map (fun t -> nat_of_int (int_of_string t)) ts) in
+        let rec show v = match v with
+          | G.TNode t -> string_of_int (int_of_nat t) | G.TBuiltin k -> "$" ^ str k | G.TRefused -> "E"
+          | G.TProduct l -> "[" ^ String.concat "," (List.map show l) ^ "]" in
+        print_endline (String.concat "|" (List.map show r))
+      | [] -> ()
+    done with End_of_file -> ())
   | [| _; "c02-list" |] ->
     List.iter (fun f -> Printf.printf "%s|%s|%s|%b|%s\n" (str f.G.gf_class) (str f.G.gf_name)
                   (String.concat "," (List.map str f.G.gf_sorts)) (G.c02_exempt f) (str f.G.gf_body)) G.c02_factories
